@@ -25,6 +25,17 @@ pub struct Case {
     /// history: a second call on the same robot in the same execution with `from` and `to` swapped
     #[serde(default)]
     pub second_call: bool,
+    /// history: afterwards the SAME robot object is re-arranged through its public fields (new
+    /// safety table, first environment body moved; the number of bodies stays the same) and the
+    /// same request is made again
+    #[serde(default)]
+    pub reconfigure: Option<Reconf>,
+}
+
+#[derive(Clone, Debug, Serialize, Deserialize)]
+pub struct Reconf {
+    pub safety: SafetySpec,
+    pub move_env0: Option<PoseSpec>,
 }
 
 #[derive(Clone, Debug)]
@@ -104,11 +115,50 @@ fn pair_shape(joint: usize, a: usize, b: usize) -> &'static str {
 }
 
 pub fn judge(case: &Case) -> Vec<Fail> {
-    let robot = Arc::new(case.cell.build_robot());
-    judge_with(case, &robot, &mut |_, _| {}, &mut |_| {})
+    let mut robot = Arc::new(case.cell.build_robot());
+    judge_with(case, &mut robot, &mut |_, _| {}, &mut |_| {})
 }
 
 fn judge_with(
+    case: &Case,
+    robot: &mut Arc<KinematicsWithShape>,
+    observe: &mut dyn FnMut(usize, &SimOut<Vec<[f64; 6]>>),
+    stats: &mut dyn FnMut(&[(Tri, bool, bool)]),
+) -> Vec<Fail> {
+    let mut fails = judge_phase(case, robot, observe, stats);
+    if let Some(rc) = &case.reconfigure {
+        let mut cell2 = case.cell.clone();
+        cell2.safety = rc.safety.clone();
+        if let (Some(p), true) = (rc.move_env0, !cell2.env.is_empty()) {
+            cell2.env[0].pose = p;
+        }
+        // the property (and the skip shortcut) presupposes a collision-free initial vector: the
+        // repeated request is only made if that still holds in the re-arranged cell
+        let still_free = {
+            let oc2 = OracleCell::new(&cell2);
+            let b = oracle::brute_q(&oc2, &case.initial, &cell2.safety);
+            !b.any_definite() && !b.any_dont_care()
+        };
+        if !still_free {
+            return fails;
+        }
+        if let Some(r) = Arc::get_mut(robot) {
+            r.body.safety = cell2.safety.build();
+            if let (Some(p), true) = (rc.move_env0, !case.cell.env.is_empty()) {
+                r.body.collision_environment[0].pose = p.iso32();
+            }
+            let case2 = Case { cell: cell2, cfgs: vec![case.cfgs[0].clone()], reconfigure: None, ..case.clone() };
+            for mut f in judge_phase(&case2, robot, &mut |_, out| observe(usize::MAX, out), &mut |_| {}) {
+                f.clause = format!("{}/after-reconfiguration", f.clause);
+                f.signature = format!("{}/after-reconfiguration", f.signature);
+                fails.push(f);
+            }
+        }
+    }
+    fails
+}
+
+fn judge_phase(
     case: &Case,
     robot: &Arc<KinematicsWithShape>,
     observe: &mut dyn FnMut(usize, &SimOut<Vec<[f64; 6]>>),
@@ -219,6 +269,11 @@ fn simplifications(case: &Case) -> Vec<Case> {
     if case.second_call {
         let mut c = case.clone();
         c.second_call = false;
+        out.push(c);
+    }
+    if case.reconfigure.is_some() {
+        let mut c = case.clone();
+        c.reconfigure = None;
         out.push(c);
     }
     if case.cfgs.len() > 2 {
@@ -387,7 +442,30 @@ pub fn gen_case(seed: u64, shard: u64, run: u64, t: &Tier) -> Option<Case> {
         cfgs.push(SimCfg::swarm(&mut knobs, sched_seed, 0, 400_000));
     }
     let second_call = knobs.chance(0.3);
-    Some(Case { cell, initial, from, to, cfgs, second_call })
+    let reconfigure = if knobs.chance(0.35) {
+        let n_env = cell.env.len();
+        let mut t2 = gen::gen_safety(&mut w, cell.tool.is_some(), cell.base.is_some(), n_env, false, knobs.chance(0.5));
+        t2.special.retain(|s| (s.0 as usize) < ENV0 + n_env && (s.1 as usize) < ENV0 + n_env);
+        if t2.mode == Mode::NoCheck {
+            t2.mode = Mode::First;
+        }
+        // move the first obstacle onto (or away from) where a candidate puts the robot
+        let move_env0 = if n_env > 0 && knobs.chance(0.7) {
+            let mut q = initial;
+            let j = w.below(6);
+            q[j] = if w.chance(0.5) { from[j] } else { to[j] };
+            let poses = oracle::link_poses(&oc, &q);
+            let k = w.range_usize(2, 5);
+            let c = poses[k].translation.vector;
+            Some(PoseSpec { t: [c.x as f64 + w.range_f64(-0.05, 0.05), c.y as f64 + w.range_f64(-0.05, 0.05), c.z as f64 + w.range_f64(-0.05, 0.05)], rpy: [0.0; 3] })
+        } else {
+            None
+        };
+        Some(Reconf { safety: t2, move_env0 })
+    } else {
+        None
+    };
+    Some(Case { cell, initial, from, to, cfgs, second_call, reconfigure })
 }
 
 pub fn run(tier_name: &str, seed: u64) -> i32 {
@@ -400,7 +478,7 @@ pub fn run(tier_name: &str, seed: u64) -> i32 {
                 tally.bump("scenarios_without_free_initial_posture", 1);
                 continue;
             };
-            let robot = Arc::new(case.cell.build_robot());
+            let mut robot = Arc::new(case.cell.build_robot());
             if case.second_call {
                 tally.bump("history_scenarios_observing_a_second_call", 1);
             }
@@ -409,9 +487,13 @@ pub fn run(tier_name: &str, seed: u64) -> i32 {
             let mut sample: Option<Value> = None;
             let fails = judge_with(
                 &case,
-                &robot,
+                &mut robot,
                 &mut |ci, out| {
                     tally.evaluations += 1;
+                    if ci == usize::MAX {
+                        tally.bump("history_request_repeated_after_reconfiguration", 1);
+                        return;
+                    }
                     let c = &out.counters;
                     tally.bump("sched_steps", c.steps);
                     tally.bump("sched_branching_points", c.branching);
